@@ -165,6 +165,14 @@ func recLeaf(n *spec.Node, v any) any {
 		return s
 	case time.Time:
 		return x.Truncate(time.Second)
+	case int:
+		if x > 1<<53 || x < -(1<<53) {
+			return n.Witness // not exactly representable as a JSON number
+		}
+	case int64:
+		if x > 1<<53 || x < -(1<<53) {
+			return n.Witness
+		}
 	}
 	return v
 }
